@@ -540,6 +540,115 @@ def _session(ctx, cfg, idx, inj=None):
         s.shutdown()
 
 
+def _tcp_session(ctx, idx):
+    """The same pair over the library's own TCP transport on the loopback interface: enable orders and disable / enable
+    sequences of one or both sides (also of a side that has no connection at that moment); after each of them the two must reach
+    COMMUNICATING again and a status request must work."""
+    import secsgem.common
+    import secsgem.gem
+    import secsgem.hsms
+    from lib import ports
+
+    rng = ctx.rng
+    host_active = rng.random() < 0.5
+    A, P = secsgem.hsms.HsmsConnectMode.ACTIVE, secsgem.hsms.HsmsConnectMode.PASSIVE
+    port = ports.free_port(ctx.shard, ctx.nshards)
+    common = dict(address="127.0.0.1", port=port, t3=5.0, t5=1, t6=2.0, establish_communication_timeout=10)
+    host = secsgem.gem.GemHostHandler(secsgem.hsms.HsmsSettings(connect_mode=A if host_active else P, device_type=secsgem.common.DeviceType.HOST, **common))
+    eq = secsgem.gem.GemEquipmentHandler(secsgem.hsms.HsmsSettings(connect_mode=P if host_active else A, device_type=secsgem.common.DeviceType.EQUIPMENT, **common))
+    for h in (host, eq):
+        h.protocol._connection.select_timeout = 0.05  # noqa: SLF001 - polling interval of the transport threads, keeps the run short
+    sides = {"host": host, "equipment": eq}
+    hist = []
+    cfg = {"transport": "tcp", "host_active": host_active}
+
+    def call(name, fn, timeout=15.0):
+        done = threading.Event()
+        box = {}
+
+        @stuck.harness_thread
+        def run():
+            try:
+                fn()
+            except Exception as exc:
+                box["exc"] = repr(exc)
+            done.set()
+        th = threading.Thread(target=run, daemon=True, name=f"harness-call-{name}")
+        th.start()
+        if not done.wait(timeout):
+            if stuck.blocked_forever([th], watch=0.6):
+                ctx.violation(f"tcp:call-blocked-forever:{name.split('(')[0]}", {"config": cfg, "history": hist[-10:], "stacks": stuck.stacks(6)})
+            else:
+                ctx.unsure(f"tcp session: {name} did not return within {timeout}s: {hist[-6:]}")
+            return False
+        if "exc" in box:
+            ctx.violation(f"tcp:call-raises:{name.split('(')[0]}", {"config": cfg, "history": hist[-10:], "error": box["exc"]})
+            return False
+        return True
+
+    def both():
+        return all(h.communication_state.current.name == "COMMUNICATING" for h in (host, eq))
+
+    def converge(where):
+        ctx.count("tcp.convergence_checked")
+        end = time.monotonic() + 30
+        fired = 0
+        while time.monotonic() < end:
+            if both():
+                return True
+            time.sleep(0.25)
+            # virtual time: let a pending establish-communications time-out expire now and then
+            timers = [t for h in (host, eq) for t in vtime.pending(owner=h.communication_state)]
+            if timers and fired < 40:
+                th = vtime.fire(sorted(timers, key=lambda t: (t.due, t.seq))[0])
+                fired += 1
+                if th is not None:
+                    th.join(3.0)
+        if both():
+            return True
+        ctx.violation(f"tcp:never-communicating:{where}", {"config": cfg, "history": hist[-10:], "host": host.communication_state.current.name,
+                                                          "equipment": eq.communication_state.current.name,
+                                                          "host_link": host.protocol.connection_state.current.name,
+                                                          "equipment_link": eq.protocol.connection_state.current.name, "timer_expiries": fired})
+        return False
+
+    try:
+        first, second = rng.sample(["host", "equipment"], 2)
+        hist.append(f"enable({first}), enable({second})")
+        if not call(f"enable({first})", sides[first].enable) or not call(f"enable({second})", sides[second].enable):
+            return
+        if not converge("startup"):
+            return
+        for _ in range(rng.randint(1, 3)):
+            kind = rng.choice(["restart_one", "both_down_second_up_first", "both_down_first_up_first", "alone_cycle"])
+            a, b = rng.sample(["host", "equipment"], 2)
+            if kind == "restart_one":
+                steps = [("disable", a), ("enable", a)]
+            elif kind == "both_down_second_up_first":
+                steps = [("disable", a), ("disable", b), ("enable", b), ("enable", a)]
+            elif kind == "both_down_first_up_first":
+                steps = [("disable", a), ("disable", b), ("enable", a), ("enable", b)]
+            else:   # one side alone: up, down, up again while the other is down; then the other comes
+                steps = [("disable", a), ("disable", b), ("enable", a), ("disable", a), ("enable", a), ("enable", b)]
+            ctx.count(f"tcp.sequence.{kind}")
+            for op, who in steps:
+                hist.append(f"{op}({who})")
+                if not call(f"{op}({who})", getattr(sides[who], op)):
+                    return
+                time.sleep(rng.choice([0.0, 0.0, 0.0, 0.05, 0.3]))     # mostly back to back: the other side is still closing
+            if not converge(f"after-{kind}"):
+                return
+            box = {}
+            if call("request_sv(1002)", lambda: box.setdefault("r", host.request_sv(1002))):
+                ctx.count("tcp.host_calls")
+        ctx.case(("tcp-session", host_active, tuple(hist)), nontrivial=True)
+    finally:
+        for h in (host, eq):
+            call("final-disable", h.disable, timeout=8.0)
+            for t in vtime.pending(owner=h.communication_state) + vtime.pending(owner=h.protocol):
+                t.cancel()
+
+
 def run(ctx):
     vtime.install()
     configs = [(ha, order, ini) for ha in (True, False) for order in ("host_first", "equipment_first", "simultaneous")
@@ -558,3 +667,5 @@ def run(ctx):
     finally:
         inj.uninstall()
     ctx.exhaustive["role_x_enable_order_x_initial_control_state"] = True
+    for i in range(3 if ctx.quick else 40):
+        _tcp_session(ctx, i)
